@@ -1662,7 +1662,7 @@ class MasterAxisStatus(SimpleAxisStatus):
         """
         self.curr_mode_counter = counter
         self.axis_trajectory_state = 6
-        desired_pos = self.p_Soll + int(round(angle * 1000000))
+        desired_pos = self.p_Ist + int(round(angle * 1000000))
         desired_rate = int(round(rate * 1000000))
         if self._move(counter, desired_pos, desired_rate, stop):
             self.executed_mode_command_counter = counter
